@@ -106,12 +106,16 @@ async def _snapshot_resume(spec_fn, seed):
     return dict(snapshot=True, spec=spec, obs=obs, rec=rec2, n=n, running=running, steps=nsteps)
 
 
+from props._waitsnap import _wait_reference, _wait_snapshot_resume  # noqa: E402
+
+
 def run(ctx):
     ctx.rule = ("L1: serialize/deserialize at random points of random reachable reducer histories through the real "
                 "to_serialized -> JSON -> from_serialized (exact vs the model, stability of the second round trip, nothing "
                 "lost) and resume ops; L2: deterministic counting workflows on the real engine, snapshot through "
                 "ctx.to_dict() + JSON at a random quiescent point (queued / running / collecting / retrying work), resumed "
-                "with Context.from_dict on a fresh workflow object, final result and state-store contents compared with "
+                "with Context.from_dict on a fresh workflow object (also: steps parked in wait_for_event with requirements, "
+                "matching and non-matching events delivered after the resume), final result and state-store contents compared with "
                 "the uninterrupted run; distinct key = history index / (seed, snapshot point, running invocations)")
     ctx.prove()
     run_l1(ctx, ctx.n(160, 4000), l1_monitor, THEOREMS, need=("serde", "serde_with_in_progress", "resume"))
@@ -152,7 +156,34 @@ def run(ctx):
             if first is not None and retry and first["retry"] != retry:
                 known.append(dict(seed=seed, why="%s: invocation of %s for event %s was on retry %d at the snapshot and is re-executed "
                                                  "as retry %d after resume" % (K_COUNTS, step, ei, retry, first["retry"])))
-    ctx.programs += 2 * n2
+    # waiting steps: snapshot while invocations are parked in wait_for_event with requirements
+    n3 = ctx.n(60, 1500)
+    wsnaps, wrong_first = 0, 0
+    for i in range(n3):
+        seed = rng.randrange(1 << 30)
+        spec, ref, sref = vloop.run(_wait_reference(seed))
+        r = vloop.run(_wait_snapshot_resume(seed))
+        if not r.get("snapshot"):
+            continue
+        wsnaps += 1
+        wrong_first += 1 if any("wrong" in x for x in r["remaining"]) else 0
+        obs = r["obs"]
+        ctx.count(1, ("waitsnap", spec["count_n"], r["delivered_before"], tuple(r["remaining"]), r["round_trips"]))
+        inp = dict(template="waitflow snapshot/resume", seed=seed, delivered_before_snapshot=r["delivered_before"],
+                   delivered_after_resume=r["remaining"], extra_serialization_round_trips=r["round_trips"])
+        if not ref.done or ref.exception is not None:
+            raise RuntimeError("waitflow reference run did not complete: %r" % (ref.exception,))
+        if not obs.done or obs.exception is not None:
+            fails.append(dict(seed=seed, input=inp, why="run resumed with steps waiting in wait_for_event did not complete: done=%s "
+                              "exception=%r stuck=%s" % (obs.done, obs.exception, obs.stuck)))
+            continue
+        if repr(obs.result) != repr(ref.result):
+            fails.append(dict(seed=seed, input=inp, why="resumed run returned %r, the uninterrupted run %r" % (obs.result, ref.result)))
+        if r["store"] != sref:
+            fails.append(dict(seed=seed, input=inp, why="state store after resume is %r, after the uninterrupted run %r (got<i> = tag of "
+                              "the event that resolved the wait of invocation i with requirements {k: i})" % (r["store"], sref)))
+    ctx.programs += 2 * n2 + 2 * n3
+    ctx.suite("engine.snapshot_resume_waiting", attempts=n3, snapshots=wsnaps, non_matching_event_after_resume=wrong_first)
     ctx.mark("engine")
     ctx.suite("engine.snapshot_resume", attempts=n2, snapshots=snaps, with_running_invocations=with_running,
               with_retrying_invocations=with_retrying, failures=len(fails), retry_count_lost=len(known))
@@ -160,8 +191,10 @@ def run(ctx):
         ctx.finding(K_COUNTS, known[0]["why"], dict(kind="implementation-monitor/L2", input=known[0], occurrences=len(known)))
     for f in fails[:3]:
         ctx.violation("C12 fails on the real engine: %s" % f["why"],
-                      dict(kind="implementation-monitor/L2", input=dict(template="countflow snapshot/resume", seed=f["seed"])))
+                      dict(kind="implementation-monitor/L2", input=f.get("input") or dict(template="countflow snapshot/resume", seed=f["seed"])))
     ctx.require_coverage("engine.snapshot_resume", "snapshots", snaps, 40)
+    ctx.require_coverage("engine.snapshot_resume_waiting", "snapshots", wsnaps, 30)
+    ctx.require_coverage("engine.snapshot_resume_waiting", "non_matching_event_after_resume", wrong_first, 10)
     ctx.require_coverage("engine.snapshot_resume", "with_running_invocations", with_running, 20)
     ctx.partial.append("'same final result and state-store contents' is checked on executions (the theorem gives the resumed "
                        "state: same unfinished inputs, buffers, waiters), not proved end-to-end; 're-executed under its existing "
